@@ -48,6 +48,13 @@ CHECKS["C17"] = dict(
     note="Trusted: Coq kernel; hand model LocalDataset.v (package generation abstract, pathlib parent/name split and path equality as given, log text not modelled); the stand-in python_on_whales (tools/stubs) reproduces the documented streaming behaviour of docker.run and docker's rule that a relative volume source is a volume name; extraction, OCaml driver, S-expression codec; the correspondence is a differential test bounded by its generator; tempfile.TemporaryDirectory's cleanup is a library contract checked by listing the temp root after every run.",
     technique="Coq proof (induction over file / metadata / chunk lists) + model/implementation correspondence with a stand-in docker client + property oracle on recorded calls",
 )
+CHECKS["C10"] = dict(
+    category="proof",
+    text="Coq theorems over a hand model of the declared-type machinery, for all type strings, pointer depths (nat) and deref counts (Z): parse_type is characterised completely (C10_parse_type_spec/_decomposition/_total/_roundtrip); the member-access text is '.', '->' or k times '(*..)' then '->' for total indirection d (C10_access_spec) and, in a pointer model with built-in pointers and classes overloading * and ->, is well typed exactly when the receiver is d-fold indirect and dereferences d times (C10_access_typed, C10_access_typed_declared, C10_well_typed_access_counts); after any metadata list the lookup is the last declaration, absent -> (double, 0) with one warning, numeric receiver -> error (C10_registry, C10_declared_value/_collection); calls/attributes render access+name and carry the looked-up type over all chains (C10_call_use, C10_attribute_use, C10_chain_invariant, C10_warnings_only_for_undeclared); collections are iterated/indexed with their element type (C10_collection_iterated/_indexed); enum values render ns1::..::nsk::v and resolve through the namespace registry (C10_enum_*); columns carry the declared (tree) type (C10_column_*, C10_declared_types_flow); one refutation recorded as known finding (C10_pointer_column_store_refuted). All closed under the global context. Tie: function-level and end-to-end correspondence of the extracted model with the real code on exhaustive grids and random declarations/chains through all three executors (loop headers, stored expression, declared column type, logged warnings, exception class).",
+    design_ref="5.10",
+    note="Trusted: Coq kernel; hand model CppTypesModel.v (dict-of-dict as association list, namespace tree as list of enum definitions, ASCII type names); the pointer-type model of C++ member access (validated by g++ -fsyntax-only on classes generated from the same declarations in the thorough tier); extraction + OCaml driver + S-expression codec; the correspondence is a differential test bounded by its generators; an independent text oracle (parser + dereference counting against the declarations) supplies failing inputs. Not covered: collections handed over behind two or more pointers (outside the property's declared space; one dereference is emitted), data members declared as collections (visit_Attribute never yields a collection representation), const-qualified value elements.",
+    technique="Coq proof (induction over strings, metadata lists and call chains; small typed pointer model) + model/implementation correspondence + g++ syntax check",
+)
 NOT_YET = {}
 
 def main():
